@@ -9,7 +9,8 @@ from .common import f2h, h2f
 RULE = ("K: real run_fdtd runs on a 4x4x4..5x4x4 periodic box with a pulsed dipole; per scene a PhasorDetector, a "
         "PhasorPoyntingFluxDetector (plane) and a ClosedSurfacePhasorPoyntingFluxDetector (box, incl. size-one axes), each "
         "with random frequencies (1-3), scaling mode, dft_subsample (1..4 or 'auto'), apodization (none / GaussianWindow / "
-        "TukeyWindow alpha in {0, .5, 1, random}) and a random valid OnOffSwitch; next to each an always-on FieldDetector on "
+        "TukeyWindow alpha in {0, .5, 1, random}) and a random valid OnOffSwitch; the seeded scene of every run also has "
+        "plane detectors with keep_all_components=True in all of {continuous, pulse} x {+, -}; next to each an always-on FieldDetector on "
         "the same cells (same interpolation flag). Independent oracle (numpy): scale * sum_t w(t) field(t) exp(i w t) from "
         "the FieldDetector history, own window formulas, own thinning; phasor fluxes from numpy cross products. Compared "
         "to 1e-9 of the largest entry with the implementation's state / compute_poynting_flux / compute_net_flux. The "
@@ -433,7 +434,14 @@ def seed_scene():
          "win": {"kind": "tukey", "start": 1.5 * dt, "end": 15.2 * dt, "alpha": 0.5}, "direction": "-", "keep_all": True,
          "fixed_axis": None, "region": [(0, 4), (2, 3), (0, 4)]},
         {"kind": "closed", "switch": c14.mk_case(T, dt), "sub": 1, "freqs": [f0], "mode": "continuous", "win": win,
-         "orientation": "outward", "axes": None, "region": box}]}
+         "orientation": "outward", "axes": None, "region": box}]
+        # keep_all_components=True in every (mode, direction) combination, one plane orientation each
+        + [{"kind": "plane", "switch": c14.mk_case(T, dt, interval=1 if mode == "pulse" else 2), "sub": 1,
+            "freqs": [f0, 0.6 * f0], "mode": mode, "win": None if direction == "+" else win, "direction": direction,
+            "keep_all": True, "fixed_axis": None, "region": region}
+           for (mode, direction, region) in (("continuous", "+", [(1, 2), (0, 4), (0, 4)]),
+                                             ("continuous", "-", [(0, 4), (0, 4), (3, 4)]),
+                                             ("pulse", "+", [(0, 4), (1, 2), (1, 4)]))]}
 
 
 # ------------------------------------------------------------------------------------ small exact pieces
